@@ -37,6 +37,8 @@ def shards(tier, seed):
 		nparts = 1 if L < 4 else (4 if L == 4 else (16 if L == 5 else 64))
 		for p in range(nparts):
 			out.append(dict(name=f'lineage-L{L}-{p}', kind='lineage', L=L, part=p, nparts=nparts))
+	for L in (1, 2, 3, 4):
+		out.append(dict(name=f'lineage-edge-L{L}', kind='lineage', L=L, part=0, nparts=1, thrs=[None, 0.0, 0.25, 1.0, 1.5]))
 	n = 6 if tier == 'quick' else 32
 	for i in range(n):
 		out.append(dict(name=f'forest-{i}', kind='forest', sub=i, n=400 if tier == 'quick' else 3000))
@@ -93,7 +95,7 @@ def run_lineage(sh, ctx):
 	L = sh['L']
 	ctx.notes['exhaustive_scopes'] = [f'lineages of depth {L}: thresholds {THRS}^{L} x report flags 2^{L} x {len(GRID)} distances']
 	n = 0
-	for thrs in itertools.product(THRS, repeat=L):
+	for thrs in itertools.product(sh.get('thrs', THRS), repeat=L):
 		n += 1
 		if n % sh['nparts'] != sh['part']:
 			continue
@@ -106,7 +108,7 @@ def run_lineage(sh, ctx):
 			genomes = orm.make_genomes(otaxa, [0])
 			prev = 'start'
 			w0 = dict(thresholds_leaf_to_root=list(thrs), report_flags=list(reps))
-			for d in GRID:
+			for d in (GRID if 'thrs' not in sh else [0.0, f32(np.nextafter(np.float32(0), np.float32(1))), 0.1, 0.25, 0.9, f32(np.nextafter(np.float32(1), np.float32(0))), 1.0]):
 				dists = np.array([d], dtype='f4')
 				res = gc.classify(genomes, dists)
 				rep = reportable_taxon(res.predicted_taxon)
